@@ -165,7 +165,23 @@ def splitBars (toks : List String) : List (List String) :=
 
 def searchBudget : Nat := 4000
 
+/-- `tie? fm …`: diagnostic op (not used by `check`): was a tie met in the canonical run? -/
+def tieProbe (toks : List String) : String :=
+  match parseCase toks with
+  | none => "bad-op"
+  | some (c, _) =>
+    let total := load c.ws c.p 0 + load c.ws c.p 1
+    let capArg : Option Int := match c.mi with
+      | none => none
+      | some bits => some ((convCap c.f64w total bits).getD 0)
+    match runWith c capArg [] with
+    | .ok r => if tieSensitive r then "tie" else "notie"
+    | _ => "other"
+
 def handle (toks : List String) : String :=
+  match toks with
+  | "tie?" :: rest => tieProbe rest
+  | _ =>
   match parseCase toks with
   | none => "bad-op"
   | some (c, rest) =>
